@@ -821,18 +821,31 @@ func (w *Worktree) Move(from, to string) (plumbing.Hash, error) {
 		return plumbing.ZeroHash, err
 	}
 
-	hash, err := w.deleteFromIndex(idx, from)
+	moved, err := idx.Remove(from)
 	if err != nil {
 		return plumbing.ZeroHash, err
 	}
+	hash := moved.Hash
 
 	if err := w.filesystem.Rename(from, to); err != nil {
 		return hash, err
 	}
 
-	if err := w.addOrUpdateFileToIndex(idx, to, hash); err != nil {
+	// Like git mv, move the index entry as it is. Taking mode and stat data
+	// from the file on disk would stage an uncommitted mode or type change
+	// and vouch for worktree content that was never hashed.
+	if _, err := idx.Remove(to); err != nil && !errors.Is(err, index.ErrEntryNotFound) {
 		return hash, err
 	}
+
+	e, err := idx.Add(to)
+	if err != nil {
+		return hash, err
+	}
+
+	name := e.Name
+	*e = *moved
+	e.Name = name
 
 	return hash, w.r.Storer.SetIndex(idx)
 }
